@@ -2,7 +2,12 @@
 package main
 
 import (
+	"encoding/json"
 	"fmt"
+	"os"
+	"os/exec"
+	"path/filepath"
+	"strings"
 
 	"github.com/iotaledger/hive.go/kvstore"
 	"github.com/iotaledger/hive.go/kvstore/flushkv"
@@ -258,15 +263,57 @@ func scenarios() []*sched.Scenario {
 	return out
 }
 
+// racePart runs the free-running -race binary (sampling; only decides "no data race was observed").
+func racePart() *cli.Part {
+	return &cli.Part{Name: "race-pass", Procs: 16, Run: func(c *cli.Ctx) *cli.PartResult {
+		secs := 8
+		if c.Thorough() {
+			secs = 120
+		}
+		self, _ := os.Executable()
+		cmd := exec.Command(filepath.Join(filepath.Dir(self), "c05race"), "-secs", fmt.Sprint(secs), "-seed", fmt.Sprint(c.Seed+1))
+		cmd.Env = append(os.Environ(), "GORACE=exitcode=66 halt_on_error=1", "GOMAXPROCS=16")
+		out, err := cmd.CombinedOutput()
+		pr := &cli.PartResult{Engine: "R", Exhaustive: false, Notes: []string{"free-running stress under the Go race detector: sampling, supplementary to the model-checking parts"}}
+		var rounds, ops int64
+		for _, l := range strings.Split(string(out), "\n") {
+			fmt.Sscanf(l, "race-pass rounds=%d operations=%d", &rounds, &ops)
+		}
+		pr.Evaluations, pr.Distinct, pr.Traces = ops, rounds, rounds
+		pr.Samples = []any{fmt.Sprintf("%d rounds of 2/8/16 goroutines x 150 random operations through 3 overlapping views (mapdb and flushkv)", rounds)}
+		if ee, ok := err.(*exec.ExitError); ok && ee.ExitCode() == 66 {
+			frames := []string{}
+			for _, l := range strings.Split(string(out), "\n") {
+				l = strings.TrimSpace(l)
+				if strings.HasPrefix(l, "github.com/iotaledger/hive.go/") && len(frames) < 2 {
+					frames = append(frames, strings.TrimPrefix(strings.SplitN(l, "(", 2)[0], "github.com/iotaledger/hive.go/"))
+				}
+			}
+			raw, _ := json.Marshal(map[string]any{"report": string(out)})
+			pr.Violations = append(pr.Violations, &cli.Violation{Part: "race-pass", Engine: "R", Signature: "data-race|" + strings.Join(frames, "|"), Message: "the Go race detector reported a data race:\n" + tailStr(string(out), 1500), Replay: raw})
+		} else if err != nil {
+			pr.Error = "race binary failed: " + err.Error() + ": " + tailStr(string(out), 400)
+		}
+		return pr
+	}}
+}
+
+func tailStr(s string, n int) string {
+	if len(s) > n {
+		return s[:n]
+	}
+	return s
+}
+
 func main() {
 	cli.Main(&cli.Property{
-		ID: "C05", Level: "model_checking", Scenarios: scenarios(),
+		ID: "C05", Level: "model_checking", Scenarios: scenarios(), Parts: []*cli.Part{racePart()},
 		QuickBound: 2, ThoroughBound: 3, QuickUnbounded: true, ThoroughUnbounded: true, Cache: true, QuickSecs: 45, ThoroughSecs: 900,
 		Rule: "every interleaving with at most b preemptions (thorough: additionally all interleavings with state caching) of 2-4 threads issuing 1-2 operations each through two overlapping views of one store (mapdb and flushkv over mapdb); each complete execution's call/return history is checked with porcupine against the ordered-map model (committed batch = one atomic write per key inside the Commit interval, Iterate = atomic snapshot); distinct = distinct (outcome, observation log)",
 		Assumptions: []string{
 			"vsync/vatomic shims model sync faithfully (selftest); sequential consistency",
 			"map iteration order inside batch Commit is owned by the explorer (vinstr mapRanges)",
 		},
-		NotReached: []string{"exhaustive exploration for 5-16 goroutines", "data-race freedom is only addressed by the separate free-running -race pass (sampling)"},
+		NotReached: []string{"exhaustive exploration for 5-16 goroutines", "data-race freedom is only observed, not decided: the race-pass part runs the store free under the Go race detector (sampling)"},
 	})
 }
